@@ -38,6 +38,7 @@ func runC01(c *Ctx) {
 	c.rule("R1", "acquisition is one exclusive create: TryLock returns nil only on the nil side of afero.Fs.Mkdir(lockPath) through l.fs.vfs; no MkDir/MkDirAll/MkdirAll on the lock path; Lock returns nil only where TryLock did and waits/retries only on ErrLocked", 4)
 	c.rule("R2", "in a function retried by retry.Do, after a removal of the lock path returned nil no path returns a non-nil error (the removal must not be re-run)", 2)
 	c.rule("R3", "stale take-over: between the staleness verdict and the removal of the lock path there is an atomic claim (Rename/Move of the lock path to a private name)", 1)
+	c.rule("R5", "inside the lock implementation only Unlock removes lockPath() and only ReleaseIfStale calls Unlock: acquire paths never release", 2)
 	c.rule("R4", "lockPath() depends only on the lock's directory, prefix and id; it is the path created by TryLock and the path removed by Unlock", 3)
 
 	try := c.fn(fsPkgRel, "(*RemoteLockFile).TryLock")
@@ -281,6 +282,44 @@ func runC01(c *Ctx) {
 		}
 	})
 	c.info("R3", fname(try)+"/override", c.pos(try.Pos()), "override branch delegates to ReleaseIfStale under overrideStaleLock: "+b2s(viaRel))
+
+	// ---- R5 ---------------------------------------------------------------
+	// who-may-release: inside the lock's own implementation only ReleaseIfStale (and MakeStale's test helper path) may call
+	// Unlock, and only Unlock removes lockPath(): an acquire path that "cleans up" removes the lock of whoever holds it.
+	for _, f := range c.srcFuncs(fsPkgRel) {
+		if !isRemoteLockMethod(f) {
+			continue
+		}
+		outer := outermost(f)
+		allInstrs(f, func(in ssa.Instruction) {
+			cl, ok := in.(*ssa.Call)
+			if !ok {
+				return
+			}
+			g := staticCallee(&cl.Call)
+			callsUnlock := g == unlock
+			removes := false
+			if n := calleeFull(&cl.Call); hasSuffixAny(n, "VFS).Rm", "VFS).RemoveWithContext", "VFS).RemoveWithContextAndExclusionPatterns", ".Remove", ".RemoveAll") {
+				for _, a := range cl.Call.Args {
+					if isLockPathValue(a) {
+						removes = true
+					}
+				}
+			}
+			if !callsUnlock && !removes {
+				return
+			}
+			key := fname(outer) + "/releases"
+			switch {
+			case callsUnlock && outer.Name() == "ReleaseIfStale":
+				c.ok("R5", key, c.ipos(cl), "release by the stale take-over (guarded by IsStale, see R3/C17)")
+			case removes && outer == unlock:
+				c.ok("R5", key, c.ipos(cl), "the holder's release")
+			default:
+				c.violate("R5", key, c.ipos(cl), outer.Name()+" removes the lock directory (through "+short(calleeNameOf(cl))+") although it is not the holder's release nor the guarded stale take-over: a contender whose acquisition failed deletes the lock of whoever holds it, and the next acquire succeeds while the holder still holds")
+			}
+		})
+	}
 
 	// ---- R4 ---------------------------------------------------------------
 	pure := true
